@@ -24,7 +24,7 @@ GNAME = {"list": "gather_list", "tuple": "gather_tuple", "set": "gather_set", "d
 
 
 def gen_cases(tier, seed):
-    n = 1500 if tier == "quick" else 40000
+    n = 1500 if tier == "quick" else 12000
     out = []
     for i in range(n):
         s = env.seed_for(seed, ID, tier, i)
